@@ -194,6 +194,9 @@ pub enum SizeClass {
     Small,
     Medium,
     Large,
+    /// payloads of several hundred KiB (values stay at most "large": a text line is re-scanned on
+    /// every read, so megabyte lines fed bytewise would make single cases take minutes)
+    Huge,
 }
 
 const KEYS: &[&str] = &[
@@ -306,7 +309,9 @@ pub fn gen_value(rng: &mut Rng, class: SizeClass) -> String {
             SizeClass::Tiny => rng.urange(0, 8),
             SizeClass::Small => rng.urange(0, 80),
             SizeClass::Medium => *rng.pick(&[100usize, 1000, 4000, 4090, 4096, 4100, 5000]),
-            SizeClass::Large => *rng.pick(&[4096usize, 8191, 8192, 8200, 16384, 20000, 33000]),
+            SizeClass::Large | SizeClass::Huge => {
+                *rng.pick(&[4096usize, 8191, 8192, 8200, 16384, 20000, 33000])
+            }
         };
         gen_text(rng, n)
     }
@@ -332,6 +337,7 @@ pub fn gen_payload(rng: &mut Rng, class: SizeClass) -> Vec<u8> {
             SizeClass::Small => rng.urange(0, 200),
             SizeClass::Medium => *rng.pick(&[1000usize, 4000, 4095, 4096, 4097, 6000]),
             SizeClass::Large => *rng.pick(&[8192usize, 8191, 12000, 16384, 16385, 40000]),
+            SizeClass::Huge => *rng.pick(&[65535usize, 65536, 65537, 131073, 262144, 700_000]),
         };
         rng.bytes(n)
     }
@@ -422,6 +428,29 @@ pub fn gen_class(rng: &mut Rng) -> SizeClass {
         (2, SizeClass::Medium),
         (1, SizeClass::Large),
     ])
+}
+
+/// Like `gen_class`, with a small share of huge payloads (checks that can afford them).
+pub fn gen_class_with_huge(rng: &mut Rng) -> SizeClass {
+    if rng.chance(1, 120) {
+        SizeClass::Huge
+    } else {
+        gen_class(rng)
+    }
+}
+
+/// A long history on one connection: hundreds to thousands of tiny responses.
+pub fn gen_long_session(rng: &mut Rng) -> Vec<AbsResp> {
+    let n = *rng.pick(&[255usize, 256, 257, 300, 1000, 1025, 3000]);
+    (0..n)
+        .map(|i| {
+            if i % 97 == 13 {
+                gen_resp(rng, SizeClass::Small)
+            } else {
+                gen_resp(rng, SizeClass::Tiny)
+            }
+        })
+        .collect()
 }
 
 pub fn gen_session(rng: &mut Rng, class: SizeClass) -> Vec<AbsResp> {
